@@ -2,7 +2,7 @@
 # Independent re-check of the compiled development (all property modules and Bridge) with coqchk; prints the
 # context summary (axioms, type-in-type, unsafe fixpoints, assumed positivity).  About 90 s.
 cd "$(dirname "$0")/../coq" || exit 2
-python3 ../tools/nop2coq.py >/dev/null && make -j16 >/dev/null 2>&1 || { echo "build failed"; exit 1; }
+python3 ../tools/nop2coq.py >/dev/null && python3 -c "import sys; sys.path.insert(0, \"../tools\"); import nop2coq_bounded; nop2coq_bounded.write(\"GenBounded.v\")" >/dev/null && make -j16 >/dev/null 2>&1 || { echo "build failed"; exit 1; }
 mods=""
 for f in Properties_C*.v; do mods="$mods Nop.${f%.v}"; done
-exec coqchk -o -silent -Q . Nop $mods Nop.Bridge
+exec coqchk -o -silent -Q . Nop $mods Nop.Bridge Nop.BridgeBounded
